@@ -104,6 +104,11 @@ def futSubmitLegs (amount : Int) (isBuy : Bool) (effect : Effect) (posQty oldQty
         (if oldQty ≠ 0 then [⟨isBuy, .close, oldQty⟩] else []) ++ [⟨isBuy, .closeToday, amount - oldQty⟩]
       else [⟨isBuy, .close, amount⟩]
 
+/-- `api_future._submit_order` from the caller's number: `amount = int(amount)` comes first, so a request of less than one
+lot is "0 order quantity" and creates nothing -/
+def futSubmit (amount : R) (isBuy : Bool) (effect : Effect) (posQty oldQty todayClosable : Int) : List Leg :=
+  futSubmitLegs (R.truncI amount) isBuy effect posQty oldQty todayClosable
+
 /-- `api_future._order(order_book_id, quantity, style, target)`: the requests handed to `_submit_order`, in order:
 close yesterday's, close today's, open -/
 def futOrderRequests (quantity : Int) (target : Bool) (longQty longOld shortQty shortOld : Int) : List Leg :=
